@@ -4,6 +4,8 @@ import NfpmModel.Spec.PayloadSpec
 import NfpmModel.Spec.ScriptSpec
 import NfpmModel.Spec.NameSpec
 import NfpmModel.Expand
+import NfpmModel.Meta
+import NfpmModel.Spec.MetaSpec
 import NfpmModel.Generated.G4Expand
 import NfpmModel.Generated.G5KeyTree
 /-
@@ -176,6 +178,40 @@ def handle (op : String) (args : List String) : Except String String :=
   | "c13merge" => do
     let (base, ov) ← run1 (do let b ← pLeaves; let o ← pLeaves; pure (b, o)) args
     pure (showLeaves (mergeLeaves base ov))
+  | "debcontrol" => do
+    let (l, sz) ← run1 (do let l ← pLeaves; let sz ← pNat; pure (l, sz)) args
+    pure (hex (debControl l sz))
+  | "ipkcontrol" => do
+    let (l, sz) ← run1 (do let l ← pLeaves; let sz ← pNat; pure (l, sz)) args
+    pure (hex (ipkControl l sz))
+  | "debtriggers" => do
+    let l ← run1 pLeaves args
+    pure (hex (debTriggers l))
+  | "apkpkginfo" => do
+    let (l, sz, dh) ← run1 (do let l ← pLeaves; let sz ← pNat; let dh ← pBytes; pure (l, sz, dh)) args
+    pure (hex (apkPkginfo l sz dh))
+  | "archpkginfo" => do
+    let (l, sz, bd, bk) ← run1 (do
+      let l ← pLeaves; let sz ← pNat; let bd ← pInt; let bk ← pList pBytes; pure (l, sz, bd, bk)) args
+    pure (hex (archPkginfo l sz bd bk))
+  | "rpmtags" => do
+    let (l, host) ← run1 (do let l ← pLeaves; let h ← pBytes; pure (l, h)) args
+    let ts := rpmStringTags l host
+    pure (s!"{ts.length}" ++ String.join (ts.map (fun (t, v) => s!" {t} {hex v}")))
+  | "c02control" => do
+    let (f, l, sz, real) ← run1 (do let f ← pFmt; let l ← pLeaves; let sz ← pNat; let r ← pBytes; pure (f, l, sz, r)) args
+    let want := match f with | .ipk => ipkFields l sz | _ => debFields l sz
+    let v := Spec.diffFields (Spec.parseControl real) want
+    pure (if v.isEmpty then "holds" else "violated " ++ String.intercalate ";" v)
+  | "c02apk" => do
+    let (l, sz, dh, real) ← run1 (do let l ← pLeaves; let sz ← pNat; let dh ← pBytes; let r ← pBytes; pure (l, sz, dh, r)) args
+    let v := Spec.diffKV (Spec.parseKV real) (Spec.apkExpected l sz dh)
+    pure (if v.isEmpty then "holds" else "violated " ++ String.intercalate ";" v)
+  | "c02arch" => do
+    let (l, sz, bd, bk, real) ← run1 (do
+      let l ← pLeaves; let sz ← pNat; let bd ← pInt; let bk ← pList pBytes; let r ← pBytes; pure (l, sz, bd, bk, r)) args
+    let v := Spec.diffKV (Spec.parseKV real) (Spec.archExpected l sz bd bk)
+    pure (if v.isEmpty then "holds" else "violated " ++ String.intercalate ";" v)
   | "configpaths" => do
     let plan ← run1 (pList pContentOut) args
     pure (showBytesList (Spec.configPaths plan))
